@@ -746,7 +746,16 @@ impl<'a> Gen<'a> {
 }
 pub fn gen_string(rng: &mut Rng) -> Vec<u8> {
     let pool: [&[u8]; 12] = [b"", b"a", b"A", b"ab", b"AB", b"Hello", b"hello", b"HELLO world", b"lo", b"He", b"l", b"World"];
-    rng.pick(&pool).to_vec()
+    // beyond ASCII (the case-insensitive operators lower-case with the Unicode mapping when an
+    // operand is not ASCII): case pairs in prefix / suffix / infix / equal / near-miss positions,
+    // the two lower-case sigmas, U+0130 whose lower case is longer, and invalid UTF-8
+    let wide: [&[u8]; 22] = [
+        b"CAF\xc3\x89", b"caf\xc3\xa9", b"f\xc3\xa9", b"\xc3\x89", b"\xc3\xa9a", b"\xc3\x89A", b"Caf", b"af\xc3\x89x",
+        b"\xce\xa3\xce\x91\xce\xa3", b"\xcf\x83\xce\xb1\xcf\x82", b"\xcf\x83\xce\xb1\xcf\x83", b"\xce\xa3", b"\xcf\x82",
+        b"\xc4\xb0", b"i\xcc\x87", b"I", b"i", b"\xc4\xb0x",
+        b"\xc3", b"\xc3A", b"\xffA", b"a\xc3",
+    ];
+    if rng.chance(1, 3) { rng.pick(&wide).to_vec() } else { rng.pick(&pool).to_vec() }
 }
 
 // ---------------------------------------------------------------- rule sets
@@ -880,6 +889,15 @@ fn unescape(s: &str) -> Result<Vec<i64>, String> {
             match b.get(i) {
                 Some(b'n') => out.push(10), Some(b't') => out.push(9), Some(b'r') => out.push(13), Some(b'0') => out.push(0),
                 Some(b'"') => out.push(34), Some(b'\\') => out.push(92), Some(b'\'') => out.push(39),
+                Some(b'u') => {
+                    let rest = std::str::from_utf8(&b[i + 1..]).map_err(|e| e.to_string())?;
+                    let end = rest.find('}').ok_or("\\u escape")?;
+                    let cp = u32::from_str_radix(rest[..end].trim_start_matches('{'), 16).map_err(|e| e.to_string())?;
+                    let ch = char::from_u32(cp).ok_or("code point")?;
+                    let mut buf = [0u8; 4];
+                    for x in ch.encode_utf8(&mut buf).as_bytes() { out.push(*x as i64); }
+                    i += end + 1;
+                }
                 Some(b'x') => { let h = std::str::from_utf8(&b[i + 1..i + 3]).map_err(|e| e.to_string())?; out.push(i64::from_str_radix(h, 16).map_err(|e| e.to_string())?); i += 2; }
                 other => return Err(format!("escape {:?}", other)),
             }
@@ -1077,7 +1095,11 @@ pub fn run_impl_ir(sources: &[(String, String)], compile_time: &[GV], globals: &
     };
     (o, info)
 }
+/// a string value of a replay file: text, or {"hex": ..} when it is not UTF-8
+pub fn gv_str(v: &serde_json::Value) -> Vec<u8> {
+    match v.as_str() { Some(t) => t.as_bytes().to_vec(), None => unhex(v["hex"].as_str().unwrap_or("")) }
+}
 pub fn gv_json(g: &[GV]) -> String {
-    let v: Vec<String> = GLOBALS.iter().zip(g).map(|((n, _), v)| format!("{}:{}", json_str(n), match v { GV::I(z) => format!("{}", z), GV::B(b) => format!("{}", b), GV::S(s) => json_str(&String::from_utf8_lossy(s)) })).collect();
+    let v: Vec<String> = GLOBALS.iter().zip(g).map(|((n, _), v)| format!("{}:{}", json_str(n), match v { GV::I(z) => format!("{}", z), GV::B(b) => format!("{}", b), GV::S(s) => match std::str::from_utf8(s) { Ok(t) => json_str(t), Err(_) => format!("{{\"hex\":\"{}\"}}", hex(s)) } })).collect();
     format!("{{{}}}", v.join(","))
 }
